@@ -12,6 +12,7 @@
   (Cramer/adjugate form of the inverse, Lemmas/LeastSquaresLimit.lean), so as `w → w₀` with `w₀ i₀ = 0` the parameters
   converge to those of the data set without datum `i₀`.  The harness also checks a 1e-12 weight against deletion numerically.
 -/
+import VerdeModel.Gen.LeastSquares
 import VerdeModel.Lemmas.LinAlgBridge
 import VerdeModel.Lemmas.LeastSquaresLimit
 namespace Verde.C02
@@ -109,5 +110,42 @@ example : leastSquares [[1, 0], [1, 1], [1, 2], [1, 3]] [1, 3, 5, 8] (some [1, 2
     = some [128/149, 1632/745] := by decide +kernel
 example : normalEqHolds [[1, 0], [1, 1], [1, 2], [1, 3]] [1, 3, 5, 8] [1, 2, 1, 1/2] (1/10)
     ((List.range 2).map (colScale2 [[1, 0], [1, 1], [1, 2], [1, 3]])) [128/149, 1632/745] 2 = true := by decide +kernel
+
+/-! ### Bridge: `least_squares` read from source as a specification -/
+
+/-- **Bridge.**  `least_squares` read statement by statement from /repo's source text on every run, as a specification over scikit-learn's contracts
+    (column j of the Jacobian divided by `scaler.scale_[j]`; `coef_` solves the weighted (ridge) normal equations of the SCALED matrix with every
+    parameter penalised alike; `params = regr.coef_ / scaler.scale_`, the operator read from the source): the returned parameters solve the
+    model's normal equations `JᵀW(Jp − d) + α·diag(scale²)·p = 0` — the unit-variance-column scaling — for every Jacobian, data, weights,
+    damping (or none) and non-zero scales. -/
+theorem gen_least_squares_spec_solves_model {K : Type} [Field K] [LinearOrder K] [IsStrictOrderedRing K] {m n : ℕ}
+    (J : Fin m → Fin n → K) (d w : Fin m → K) (damping : Option K) (scale params : Fin n → K)
+    (hs : ∀ j, scale j ≠ 0) (h : Gen.leastSquaresSpec J d w damping scale params) :
+    LS.normalEq J w d (damping.getD 0) (fun j => scale j ^ 2) params := by
+  obtain ⟨coef, hc, rfl⟩ := h
+  intro j
+  have hj := hc j
+  simp only [] at hj
+  have key : (∑ i, w i * J i j * ((∑ k, J i k * (coef k / scale k)) - d i)) + damping.getD 0 * scale j ^ 2 * (coef j / scale j)
+      = scale j * ((∑ i, w i * (J i j / scale j) * ((∑ k, J i k / scale k * coef k) - d i)) + damping.getD 0 * 1 * coef j) := by
+    have hsj := hs j
+    rw [mul_add, Finset.mul_sum]
+    congr 1
+    · apply Finset.sum_congr rfl
+      intro i _
+      have : (∑ k, J i k * (coef k / scale k)) = ∑ k, J i k / scale k * coef k := by
+        apply Finset.sum_congr rfl; intro k _; field_simp [hs k]
+      rw [this]
+      field_simp
+    · field_simp
+  rw [key, hj, mul_zero]
+
+/-- … hence (non-negative weights and damping) they minimise the documented objective `Σ w r² + α Σ scale_j² p_j²` over all parameter vectors. -/
+theorem gen_least_squares_spec_optimal {K : Type} [Field K] [LinearOrder K] [IsStrictOrderedRing K] {m n : ℕ}
+    (J : Fin m → Fin n → K) (d w : Fin m → K) (damping : Option K) (scale params : Fin n → K)
+    (hs : ∀ j, scale j ≠ 0) (hw : ∀ i, 0 ≤ w i) (hα : 0 ≤ damping.getD 0) (h : Gen.leastSquaresSpec J d w damping scale params)
+    (q : Fin n → K) :
+    LS.obj J w d (damping.getD 0) (fun j => scale j ^ 2) params ≤ LS.obj J w d (damping.getD 0) (fun j => scale j ^ 2) q :=
+  LS.ls_optimal J w d _ _ params hw hα (fun j => sq_nonneg _) (gen_least_squares_spec_solves_model J d w damping scale params hs h) q
 
 end Verde.C02
